@@ -24,6 +24,16 @@ impl<T: FileStore> RecvTransaction<T> {
         }
     }
 
+    /// C18: an unacknowledged-mode receiver is one-way: it holds nothing that would make send_pdu emit an ACK, a NAK or a keep-alive
+    /// (no pending ACK, no prompt to answer, empty NAK queue, no delayed NAK check armed, NAK timer never started)
+    pub open spec fn oneway_inv(&self) -> bool {
+        self.config.transmission_mode == TransmissionMode::Unacknowledged ==> {
+            &&& self.ack.is_none() && self.prompt.is_none() && self.naks@.len() == 0
+            &&& self.delayed_nack_timers@.len() == 0
+            &&& self.timer.nak.paused && !self.timer.nak@.occurred
+        }
+    }
+
     /// limits never change, and a count that has reached its limit stays there (pausing only counts, never clears)
     pub open spec fn limits_sticky(&self, o: Self) -> bool {
         &&& self.timer.ack@.max == o.timer.ack@.max && self.timer.inactivity@.max == o.timer.inactivity@.max
@@ -170,6 +180,8 @@ impl<T: FileStore> RecvTransaction<T> {
     pub fn vx_collect_delayed_naks(&mut self)
         ensures
             final(self).same_except_naks(*old(self)),
+            // (the block loops over the delayed-NAK timers: with none armed it does nothing)
+            old(self).delayed_nack_timers@.len() == 0 ==> (final(self).naks == old(self).naks && final(self).delayed_nack_timers == old(self).delayed_nack_timers),
     {
         unimplemented!()
     }
